@@ -361,12 +361,20 @@ var errNames = func() map[string]string {
 		"ErrNoSavedBlockOrResults": lib.ErrNoSavedBlockOrResults(), "ErrMismatchConsBlockHash": lib.ErrMismatchConsBlockHash(),
 		"ErrMismatchResultsHash": lib.ErrMismatchResultsHash(), "ErrNoMaj23": lib.ErrNoMaj23(),
 		"ErrWrongHighQCRootHeight": lib.ErrWrongHighQCRootHeight(), "ErrWrongHighQCHeight": lib.ErrWrongHighQCHeight(),
-		"ErrInvalidAggrSignature": lib.ErrInvalidAggrSignature(),
+		"ErrInvalidAggrSignature": lib.ErrInvalidAggrSignature(), "ErrNilBlock": lib.ErrNilBlock(), "ErrNilCertResults": lib.ErrNilCertResults(),
+		"ErrInvalidSigner": lib.ErrInvalidSigner(), "ErrInvalidProposerPubKey": lib.ErrInvalidProposerPubKey(nil),
 	} {
 		m[fmt.Sprintf("%s/%d", e.Module(), e.Code())] = name
 	}
 	return m
 }()
+
+func bit(b bool) string {
+	if b {
+		return "1"
+	}
+	return "0"
+}
 
 func errName(e lib.ErrorI) string {
 	k := fmt.Sprintf("%s/%d", e.Module(), e.Code())
@@ -411,8 +419,12 @@ func (r *run) deliver(e *bftsim.Envelope) string {
 			case !s.Stored(e.To, m):
 				res = "partial"
 			}
-			r.o.Op(fmt.Sprintf("dl %d %d %d.%d %d %s %s", e.To, e.From, m.Header.RootHeight, m.Header.Round, int(m.Header.Phase),
-				s.CertDesc(m.Qc), s.CertDesc(m.HighQc)), res)
+			qcp := "-"
+			if i := s.IdxOf(m.Qc.ProposerKey); i >= 0 {
+				qcp = fmt.Sprint(i)
+			}
+			r.o.Op(fmt.Sprintf("dl %d %d %d.%d %d %s %s %s %s %s", e.To, e.From, m.Header.RootHeight, m.Header.Round, int(m.Header.Phase),
+				s.CertDesc(m.Qc), s.CertDesc(m.HighQc), qcp, bit(m.Qc.Block != nil), bit(m.Qc.Results != nil)), res)
 		case "ELECTION_VOTE":
 			if m.HighQc != nil && m.HighQc.Header != nil {
 				res := "keep"
@@ -422,7 +434,12 @@ func (r *run) deliver(e *bftsim.Envelope) string {
 				case err != nil && errNames[fmt.Sprintf("%s/%d", err.Module(), err.Code())] != "":
 					res = "err:" + errName(err)
 				}
-				r.o.Op(fmt.Sprintf("ev %d %d.%d %s", e.To, m.Qc.Header.RootHeight, m.Qc.Header.Round, s.CertDesc(m.HighQc)), res+" "+s.State(e.To))
+				named := "-"
+				if i := s.IdxOf(m.Qc.ProposerKey); i >= 0 {
+					named = fmt.Sprint(i)
+				}
+				r.o.Op(fmt.Sprintf("ev %d %d.%d %s %s %s %s", e.To, m.Qc.Header.RootHeight, m.Qc.Header.Round, named, s.CertDesc(m.HighQc),
+					bit(m.HighQc.Block != nil), bit(m.HighQc.Results != nil)), res+" "+s.State(e.To))
 			}
 		}
 	}
